@@ -1,6 +1,8 @@
 package eng
 
 import (
+	"go/token"
+
 	"golang.org/x/tools/go/ssa"
 )
 
@@ -141,10 +143,9 @@ func InstrsShallow(fn *ssa.Function, f func(ssa.Instruction)) {
 var deepProg *Prog
 
 // Instrs iterates over the instructions of fn and, at each static call of a
-// transparent helper, over the helper's instructions as well (depth-bounded,
-// each helper once per scan).
+// transparent helper, over the helper's instructions as well, as if the helper
+// were expanded at that call (depth-bounded; helpers are never recursive).
 func Instrs(fn *ssa.Function, f func(ssa.Instruction)) {
-	seen := map[*ssa.Function]bool{fn: true}
 	var rec func(g *ssa.Function, d int)
 	rec = func(g *ssa.Function, d int) {
 		for _, b := range g.Blocks {
@@ -154,8 +155,7 @@ func Instrs(fn *ssa.Function, f func(ssa.Instruction)) {
 					continue
 				}
 				if c, ok := in.(*ssa.Call); ok {
-					if callee := c.Call.StaticCallee(); callee != nil && deepProg.transparent[callee] && !seen[callee] {
-						seen[callee] = true
+					if callee := c.Call.StaticCallee(); callee != nil && callee != fn && deepProg.transparent[callee] {
 						rec(callee, d+1)
 					}
 				}
@@ -163,6 +163,49 @@ func Instrs(fn *ssa.Function, f func(ssa.Instruction)) {
 		}
 	}
 	rec(fn, 0)
+}
+
+// Dominates reports whether instruction a is executed before b on every path
+// from the entry of a's function to b. b may lie in a transparent helper (then
+// every call of the helper must be dominated), a may lie in one (then it must
+// lie on every path through the helper, and the helper call must dominate b).
+func Dominates(a, b ssa.Instruction) bool {
+	return dominatesDeep(a, b, 0)
+}
+
+func dominatesDeep(a, b ssa.Instruction, d int) bool {
+	if a.Parent() == b.Parent() {
+		return dominatesLocal(a, b)
+	}
+	p := deepProg
+	if p == nil || d > maxInlineDepth {
+		return false
+	}
+	if p.transparent[b.Parent()] {
+		sites := p.sitesOf(b.Parent())
+		if len(sites) == 0 {
+			return false
+		}
+		for _, s := range sites {
+			if !dominatesDeep(a, s, d+1) {
+				return false
+			}
+		}
+		return true
+	}
+	if p.transparent[a.Parent()] {
+		for _, r := range returnsOf(a.Parent()) {
+			if !dominatesLocal(a, r) {
+				return false
+			}
+		}
+		for _, s := range p.sitesOf(a.Parent()) {
+			if dominatesDeep(s, b, d+1) {
+				return true
+			}
+		}
+	}
+	return false
 }
 
 // Anchors returns the non-transparent functions from which fn is reached
@@ -221,4 +264,258 @@ func containsStr(s, sub string) bool {
 		}
 	}
 	return false
+}
+
+// RegName is the explorer's name of register v when the exploration starts in
+// an anchor function: tN for the anchor's own registers, tN_hK for those of a
+// transparent helper inlined into it.
+func (p *Prog) RegName(v ssa.Value) string {
+	f := v.Parent()
+	if f == nil || !p.transparent[f] {
+		return v.Name()
+	}
+	id, ok := helperIDs[f]
+	if !ok {
+		id = len(helperIDs) + 1
+		helperIDs[f] = id
+	}
+	return v.Name() + "_h" + itoa(id)
+}
+
+// Scope, when set, is the anchor function a rule is currently analysing: a
+// parameter of a helper shared by several anchors then stands for the
+// arguments at the call sites reached from that anchor only.
+var Scope *ssa.Function
+
+// inScope: call site s is reached (through helpers) from the current scope.
+func (p *Prog) inScope(s *ssa.Call) bool {
+	if Scope == nil {
+		return true
+	}
+	for _, a := range p.Anchors(s.Parent()) {
+		if a == Scope {
+			return true
+		}
+	}
+	return false
+}
+
+var siteCache = map[*ssa.Function][]*ssa.Call{}
+
+func (p *Prog) sitesOf(fn *ssa.Function) []*ssa.Call {
+	if s, ok := siteCache[fn]; ok {
+		return s
+	}
+	s := p.StaticCallSites(fn)
+	siteCache[fn] = s
+	return s
+}
+
+// returnsOf lists the return instructions of fn.
+func returnsOf(fn *ssa.Function) []*ssa.Return {
+	var out []*ssa.Return
+	InstrsShallow(fn, func(in ssa.Instruction) {
+		if r, ok := in.(*ssa.Return); ok && r.Block() != fn.Recover {
+			out = append(out, r) // (the recover block only runs after a recovered panic)
+		}
+	})
+	return out
+}
+
+// ResolveAll looks through transparent helpers: a helper parameter stands for
+// the arguments at the helper's static call sites, the value of a helper call
+// for the results the helper returns. A value that is neither is returned
+// unchanged. (Depth-bounded; used by the provenance and identity rules.)
+func ResolveAll(v ssa.Value) []ssa.Value {
+	p := deepProg
+	if p == nil {
+		return []ssa.Value{v}
+	}
+	var out []ssa.Value
+	type visit struct {
+		v   ssa.Value
+		via *ssa.Call
+	}
+	seen := map[visit]bool{}
+	// ctx: the helper calls whose results are being followed; a parameter of
+	// such a helper stands for the argument of that very call
+	var rec func(v ssa.Value, d int, ctx []*ssa.Call)
+	rec = func(v ssa.Value, d int, ctx []*ssa.Call) {
+		var via *ssa.Call
+		if len(ctx) > 0 {
+			via = ctx[len(ctx)-1]
+		}
+		if seen[visit{v, via}] {
+			return
+		}
+		seen[visit{v, via}] = true
+		if d > 8 {
+			out = append(out, v)
+			return
+		}
+		switch x := v.(type) {
+		case *ssa.Parameter:
+			fn := x.Parent()
+			if p.transparent[fn] {
+				idx := -1
+				for i, q := range fn.Params {
+					if q == x {
+						idx = i
+					}
+				}
+				if via != nil && via.Call.StaticCallee() == fn && idx >= 0 && idx < len(via.Call.Args) {
+					rec(via.Call.Args[idx], d+1, ctx[:len(ctx)-1])
+					return
+				}
+				sites := p.sitesOf(fn)
+				if Scope != nil {
+					var scoped []*ssa.Call
+					for _, s := range sites {
+						if p.inScope(s) {
+							scoped = append(scoped, s)
+						}
+					}
+					if len(scoped) > 0 {
+						sites = scoped
+					}
+				}
+				if idx >= 0 && len(sites) > 0 {
+					for _, s := range sites {
+						if idx < len(s.Call.Args) {
+							rec(s.Call.Args[idx], d+1, nil)
+						}
+					}
+					return
+				}
+			}
+		case *ssa.Call:
+			if callee := x.Call.StaticCallee(); callee != nil && p.transparent[callee] && callee.Signature.Results().Len() == 1 {
+				rets := returnsOf(callee)
+				if len(rets) > 0 {
+					for _, r := range rets {
+						rec(r.Results[0], d+1, append(append([]*ssa.Call(nil), ctx...), x))
+					}
+					return
+				}
+			}
+		case *ssa.Extract:
+			if call, ok := x.Tuple.(*ssa.Call); ok {
+				if callee := call.Call.StaticCallee(); callee != nil && p.transparent[callee] {
+					rets := returnsOf(callee)
+					if len(rets) > 0 {
+						for _, r := range rets {
+							if x.Index < len(r.Results) {
+								rec(r.Results[x.Index], d+1, append(append([]*ssa.Call(nil), ctx...), call))
+							}
+						}
+						return
+					}
+				}
+			}
+		}
+		out = append(out, v)
+	}
+	rec(v, 0, nil)
+	return out
+}
+
+// Resolve is ResolveAll when the resolution is unique (ignoring zero-value
+// constants returned on a helper's failure exits), otherwise v itself.
+func Resolve(v ssa.Value) ssa.Value {
+	all := ResolveAll(v)
+	if len(all) == 1 {
+		return all[0]
+	}
+	var nz []ssa.Value
+	for _, a := range all {
+		if c, ok := a.(*ssa.Const); ok && (c.Value == nil || c.IsNil() || isZeroConst(c)) {
+			continue
+		}
+		nz = append(nz, a)
+	}
+	if len(nz) == 1 {
+		return nz[0]
+	}
+	return v
+}
+
+func isZeroConst(c *ssa.Const) bool {
+	if c.Value == nil {
+		return true
+	}
+	s := c.Value.ExactString()
+	return s == "0" || s == `""` || s == "false"
+}
+
+// Canon follows a value back through conversions, transparent helpers and
+// single-assignment local cells (a named result or a `var x = v` local stored
+// exactly once, the store dominating the load) to the value it stands for.
+func Canon(v ssa.Value) ssa.Value {
+	for i := 0; i < 12; i++ {
+		v = Strip(v)
+		ld, ok := v.(*ssa.UnOp)
+		if !ok || ld.Op != token.MUL {
+			return v
+		}
+		al, ok := ld.X.(*ssa.Alloc)
+		if !ok {
+			return v
+		}
+		var st *ssa.Store
+		n := 0
+		escapes := false
+		for _, r := range Referrers(al) {
+			switch x := r.(type) {
+			case *ssa.Store:
+				if x.Addr == ssa.Value(al) {
+					if self, ok := x.Val.(*ssa.UnOp); ok && self.Op == token.MUL && self.X == ssa.Value(al) {
+						continue // `return id` of a named result: *id = *id
+					}
+					st = x
+					n++
+				} else {
+					escapes = true
+				}
+			case *ssa.UnOp:
+			default:
+				escapes = true
+			}
+		}
+		if n != 1 || escapes || !Dominates(st, ld) {
+			return v
+		}
+		v = st.Val
+	}
+	return v
+}
+
+// SameValue: both operands stand for the same SSA value.
+func SameValue(a, b ssa.Value) bool {
+	if a == nil || b == nil {
+		return false
+	}
+	return a == b || Canon(a) == Canon(b)
+}
+
+// LiftTo maps an instruction inside a transparent helper to the call
+// instructions in fn through which it is reached (in itself when it already
+// lies in fn).
+func LiftTo(fn *ssa.Function, in ssa.Instruction) []ssa.Instruction {
+	p := deepProg
+	var out []ssa.Instruction
+	var rec func(i ssa.Instruction, d int)
+	rec = func(i ssa.Instruction, d int) {
+		if i.Parent() == fn {
+			out = append(out, i)
+			return
+		}
+		if p == nil || d > maxInlineDepth || !p.transparent[i.Parent()] {
+			return
+		}
+		for _, s := range p.sitesOf(i.Parent()) {
+			rec(s, d+1)
+		}
+	}
+	rec(in, 0)
+	return out
 }
